@@ -20,6 +20,7 @@ import (
 	"math/rand"
 	"os"
 	"reflect"
+	"strings"
 	"sync"
 	"time"
 
@@ -329,8 +330,12 @@ func cmdGated(args []string) {
 	w := bufio.NewWriterSize(of, 1<<20)
 	defer w.Flush()
 	enc := json.NewEncoder(w)
-	drift, predbad, flagged := 0, 0, 0
+	drift, predbad, flagged, deadlocks, executed := 0, 0, 0, 0, 0
 	for _, l := range lines {
+		if deadlocks >= 3 {
+			break // every further deadlock costs a watchdog timeout; three are proof enough
+		}
+		executed++
 		var sl SchedLine
 		if err := json.Unmarshal(l, &sl); err != nil {
 			die(2, "schedule line: %v", err)
@@ -345,9 +350,15 @@ func cmdGated(args []string) {
 		if len(h.Flags) > 0 {
 			flagged++
 		}
+		for _, f := range h.Flags {
+			if strings.HasPrefix(f, "deadlock") {
+				deadlocks++
+				break
+			}
+		}
 		_ = enc.Encode(h)
 	}
-	fmt.Printf("{\"schedules_enumerated\": %d, \"executed\": %d, \"drift\": %d, \"prediction_mismatch\": %d, \"flagged\": %d, \"hook_calls\": %d}\n", total, len(lines), drift, predbad, flagged, hookCalls)
+	fmt.Printf("{\"schedules_enumerated\": %d, \"executed\": %d, \"drift\": %d, \"prediction_mismatch\": %d, \"flagged\": %d, \"hook_calls\": %d}\n", total, executed, drift, predbad, flagged, hookCalls)
 }
 
 // ---- free running ------------------------------------------------------------------
@@ -395,8 +406,9 @@ func cmdStress(args []string) {
 	defer w.Flush()
 	enc := json.NewEncoder(w)
 	rng := rand.New(rand.NewSource(*seed))
-	flagged := 0
-	for r := 0; r < *rounds; r++ {
+	flagged, deadlocks, done := 0, 0, 0
+	for r := 0; r < *rounds && deadlocks < 3; r++ {
+		done++
 		init := AState{Live: true, Kind: "AND", Cap: []int{0, 0, 2, 3, 4}[rng.Intn(5)], Mtx: true, Fifo: rng.Intn(2) == 0, Err: "none", VPol: "none"}
 		n := rng.Intn(4)
 		if init.Cap > 0 && n > init.Cap {
@@ -445,6 +457,7 @@ func cmdStress(args []string) {
 			h.Final = []string{}
 			_ = enc.Encode(h)
 			flagged++
+			deadlocks++
 			continue
 		}
 		for g := range h.Hist {
@@ -467,7 +480,7 @@ func cmdStress(args []string) {
 		}
 		_ = enc.Encode(h)
 	}
-	fmt.Printf("{\"rounds\": %d, \"flagged\": %d}\n", *rounds, flagged)
+	fmt.Printf("{\"rounds\": %d, \"flagged\": %d}\n", done, flagged)
 }
 
 func replaySched(b []byte) {
